@@ -383,6 +383,9 @@ def run(ctx):
                 r = exact_q(c.info, c.names, [n for _, n in c.mapping])
                 c.q_scale = r[1] if r else 0.0
             L.compare(ctx, c, rep, 'c20.estimate', parts=('uq', 'se'))
+    L.floors(ctx, {'uq_libraries': 3, 'unit_vectors': 200, 'corr_cases': 600, 'model_notInBasis': 20, 'out_of_basis_shipped': 15,
+                   'se_h_ok': 400, 'se_cp_incomplete': 50, 'expect_noUQ': 20, 'relational': 80, 'nan_on_indefinite': 5,
+                   'loader_checks': 3, 'loaded_scratch_libraries': 3, 'corpus': 1})
 
 
 def replay(ctx, rec, batch=None):
